@@ -18,8 +18,14 @@ def on_exc(w):
 
 
 def run(tier, seed):
-    return run_r("C05", tier, seed, scenarios(tier), [acc_C05], 2 if tier == "quick" else 3, on_exc, WIT, RULE)
+    from ..families import cross_family
+    res = run_r("C05", tier, seed, scenarios(tier), [acc_C05], 2 if tier == "quick" else 3, on_exc, WIT, RULE)
+    run_r("C05", tier, seed, cross_family(tier, observer=make_holdings_observer()), [acc_C05], 1 if tier == "quick" else 2, on_exc, [], RULE, res=res, label="cross_family", split=0)
+    return res
 
 
 def replay(payload):
-    return replay_r(scenarios("thorough"), [acc_C05], on_exc, payload)
+    from ..families import cross_family
+    sc = scenarios("thorough")
+    sc.update(cross_family("thorough", observer=make_holdings_observer()))
+    return replay_r(sc, [acc_C05], on_exc, payload)
